@@ -12,7 +12,22 @@ samtools bedcov pileup, and --count) against
   (processes, chunk size) configuration compared with the serial one;
 * the extracted Coq model (Model/Coverage.v), whose clauses are proved in
   Props/C09.v (C09_depth, C09_empty, C09_filters, C09_algorithms_agree,
-  C09_chunks).
+  C09_chunks, and for the layers below: C09_bedcov_parse / C09_names_verbatim /
+  C09_pileup_text, C09_to_chunks, C09_pileup_order, C09_count_order, C09_min_mapq).
+  Tables are compared with the model POSITIONALLY for both algorithms.
+
+Besides whole do_coverage runs the layers are compared directly:
+* the text layer of the pileup path: detect_bedcov_columns, bedcov()'s read_csv and
+  interval_coverages_pileup's table assembly are called on generated bedcov text
+  (pysam.bedcov replaced inside this process by a stand-in that returns the text and
+  records its arguments: this also checks that `-Q n` is passed exactly for
+  min_mapq > 0); and through samtools: the text pysam.bedcov really returns for each
+  world must be, character by character, the model's bedcov_text of the bins and the
+  model's pileup base counts;
+* parallel.to_chunks on files with '#' comments, track and blank lines, missing final
+  newline, against the model's to_chunks_lines;
+* the row order of the --count path (tabio.read_auto + by_chromosome + coords, no BAM)
+  against the model's count_order and against the statement of C09_count_order.
 
 Level: proof of the model's clauses + validated model.  PARTIAL with respect to
 the runtime: the scheduling of the process pool, the temporary chunk files and
@@ -40,7 +55,10 @@ CUTS = [0, 1, 10, 30, 60]
 NA_TOKENS = ['', '#N/A', '#N/A N/A', '#NA', '-1.#IND', '-1.#QNAN', '-NaN', '-nan', '1.#IND', '1.#QNAN', '<NA>', 'N/A',
              'NA', 'NULL', 'NaN', 'None', 'n/a', 'nan', 'null']
 NUMERIC_NAMES = ['007', '1', '12', '1e3', '1.10', '0x10', '-5', '+3', '1_000', '00', '3.0', 'inf', 'True']
-ORDINARY = ['TP53', 'BRCA1', 'EGFR', 'a,b', 'x|y', 'g.1', '-', '.', 'Antitarget', 'CGH', 'gene-2', 'orf(1)', 'a b']
+ORDINARY = ['TP53', 'BRCA1', 'EGFR', 'a,b', 'x|y', 'g.1', '-', '.', 'Antitarget', 'CGH', 'gene-2', 'orf(1)', 'a b',
+            'a"b', "5'UTR", 'x"', 'p;q=1', '#7', '\\N',
+            # quote characters: leading, embedded, paired (pileup read them through pandas' quoting until /repo 0ba5218)
+            '"TP53"', '"a', '""', '"x""y"', '"', "'q'", 'a""b']
 
 
 # ----------------------------------------------------------------------------
@@ -79,6 +97,8 @@ def split_int(rng, total, parts):
 
 
 def gen_cigar(rng, indel):
+    """indel: False (M/=/X with clips), True (I, D and N), 'ins' (insertions only: no reference skip)"""
+    ins_only = (indel == 'ins')
     qlen = rng.choice([30, 31, 36, 50, 75, 100, 101, 149, 150, rng.randint(30, 150)])
     lead = rng.choice([0, 0, 0, 1, 5, rng.randint(0, qlen // 3)])
     trail = rng.choice([0, 0, 0, 1, 5, rng.randint(0, qlen // 3)])
@@ -101,10 +121,10 @@ def gen_cigar(rng, indel):
         parts = split_int(rng, core, nparts)
         # odd pieces may become insertions (query only); the ends stay aligned
         for j, ln in enumerate(parts):
-            if 0 < j < len(parts) - 1 and rng.random() < 0.4:
+            if 0 < j < len(parts) - 1 and rng.random() < (0.8 if ins_only else 0.4):
                 cig.append((I, ln))
             else:
-                if cig and cig[-1][0] in (M, EQ, X):
+                if cig and cig[-1][0] in (M, EQ, X) and not ins_only:
                     cig.append((rng.choice([D, D, N]), rng.choice([1, 2, 5, rng.randint(1, 30), rng.randint(1, 200)])))
                 cig.append((rng.choice([M, M, EQ]), ln))
     if trail:
@@ -125,8 +145,11 @@ def gen_flag(rng, k):
                 f |= bit
     if rng.random() < 0.5:
         f |= 0x10
-    if rng.random() < 0.06:
-        f |= 0x800
+    if rng.random() < 0.12:
+        f |= 0x800                 # supplementary: NOT one of the four excluded flags, must be counted
+    if rng.random() < 0.25:
+        # paired decorations: paired, proper pair, mate unmapped, mate reverse, first / second in pair
+        f |= 0x1 | rng.choice([0, 0x2, 0x8, 0x20, 0x2 | 0x20]) | rng.choice([0x40, 0x80])
     return f
 
 
@@ -294,10 +317,26 @@ def write_bam(path, contigs, reads):
     pysam.index(path)
 
 
-def write_bed(path, lines):
+def bed_text_lines(lines, decor=False):
+    """the lines of the regions file; decor: a leading track line, '#' comment lines and blank lines in
+    between (skipped by samtools and -- the '#' lines -- by to_chunks; the --count reader rejects them)"""
+    out = []
+    if decor:
+        out.append('track name=verif description="C09 regions"\n')
+    for i, (c, lo, hi, cols) in enumerate(lines):
+        if decor and i % 3 == 0:
+            out.append('#comment %d\tnot\ta\tbin\n' % i)
+        if decor and i % 5 == 2:
+            out.append('\n')
+        out.append('\t'.join([c, str(lo), str(hi)] + list(cols)) + '\n')
+    if decor:
+        out.append('# trailing comment\n')
+    return out
+
+
+def write_bed(path, lines, decor=False):
     with open(path, 'w') as fh:
-        for c, lo, hi, cols in lines:
-            fh.write('\t'.join([c, str(lo), str(hi)] + list(cols)) + '\n')
+        fh.write(''.join(bed_text_lines(lines, decor)))
 
 
 # ----------------------------------------------------------------------------
@@ -402,14 +441,15 @@ def run_cli(bed, bam, alg, cut, procs, out):
     p = subprocess.run(cmd, env=vlib.repo_env(), stdout=subprocess.PIPE, stderr=subprocess.PIPE, timeout=600)
     if p.returncode != 0:
         return Err('cnvkit.py coverage exit %d: %s' % (p.returncode, p.stderr.decode(errors='replace')[-160:]))
-    lines = open(out).read().split('\n')
-    if lines and lines[-1] == '':
-        lines.pop()
-    hdr = lines[0].split('\t')
+    import csv
+    with open(out, newline='') as fh:
+        # the .cnn is written by pandas to_csv: a field holding a double quote is CSV-quoted
+        # ('a"b' -> "a""b"); read it with the same convention, every field as text
+        lines = list(csv.reader(fh, delimiter='\t'))
+    hdr = lines[0]
     ix = {h: i for i, h in enumerate(hdr)}
     rows = []
-    for ln in lines[1:]:
-        f = ln.split('\t')
+    for f in lines[1:]:
         rows.append((f[ix['chromosome']], int(f[ix['start']]), int(f[ix['end']]), f[ix['gene']],
                      float(f[ix['depth']]), float(f[ix['log2']])))
     os.remove(out)
@@ -451,14 +491,12 @@ def model_rows_check(rows, mrows, alg):
         return None if (isinstance(mrows, Err) and isinstance(rows, Err)) else 'error behaviour differs'
     if len(rows) != len(mrows):
         return 'row counts differ'
+    # positional for both algorithms: the model orders the --count table as the code does
+    # (C09_count_order: sorted by chromosome key, start, end; grouped by chromosome name)
     mm = [(m[0], m[1], m[2], m[3], m[4], m[5]) for m in mrows]
-    got = rows
-    if alg != 'pileup':
-        mm = sorted(mm, key=lambda r: (r[0], r[1], r[2], r[3], r[4]))
-        got = sorted(rows, key=lambda r: (r[0], r[1], r[2], str(r[3]), r[4]))
-    for r, m in zip(got, mm):
+    for i, (r, m) in enumerate(zip(rows, mm)):
         if (r[0], r[1], r[2], r[3]) != (m[0], m[1], m[2], m[3]):
-            return 'row key %r vs model %r' % (r[:4], m[:4])
+            return 'row %d: key %r vs model %r (row order / bin identity)' % (i, r[:4], m[:4])
         if r[4] != float(m[4]):
             return 'depth %r vs model %s at %r' % (r[4], m[4], r[:4])
         if not vlib.close(r[5], m[5]):
@@ -553,9 +591,13 @@ def eval_case(scratch, case, tag='case'):
     return {'violation': v, 'rows': rows, 'expected': exp, 'serial': base}
 
 
-def run_world(ck, scratch, wi, stream, nreads, max_bins, nbeds, cuts, configs, big=False):
+def run_world(ck, scratch, wi, stream, nreads, max_bins, nbeds, cuts, configs, big=False, algs=('pileup', 'count'),
+              decor=False):
+    """stream: noindel | indel (I, D, N) | ins (insertions only: no reference skip, the oracle applies to both
+    algorithms).  decor: the regions file carries a track line, '#' comments and blank lines (pileup only)."""
+    import pysam
     rng = ck.rng
-    indel = (stream == 'indel')
+    indel = {'indel': True, 'ins': 'ins'}.get(stream, False)
     ncont = rng.randint(1, 3)
     names = rng.sample(['chr1', 'chr2', 'chrX', '1', 'ctgA', 'chrUn_gl000220', 'chr10'], ncont)
     if big:
@@ -572,13 +614,16 @@ def run_world(ck, scratch, wi, stream, nreads, max_bins, nbeds, cuts, configs, b
     mreads = model_reads(contigs, reads)
     requests = []          # [alg, cut, k, reads, bins, log2 table] for the model entry
     pending = []           # (request index, code rows, case without reads, alg)
+    text_requests, text_pending = [], []      # samtools' own text against the model's bedcov_text
+    nsupp = sum(1 for r in reads if r[3] & 0x800 and not r[3] & EXCLUDE_MASK)
+    ck.extra['supplementary_counted_reads'] = ck.extra.get('supplementary_counted_reads', 0) + nsupp
     for cut in cuts:
         aligned, spanned = brute_arrays(contigs, reads, cut)
         unfiltered, _ = brute_arrays(contigs, [[r[0], r[1], r[2], r[3] & ~EXCLUDE_MASK & ~0x4, 60, r[5]] for r in reads], 0)
         for bi, bedl in enumerate(beds):
             bedp = os.path.join(scratch, 'w%d_b%d.bed' % (wi, bi))
             if not os.path.exists(bedp):
-                write_bed(bedp, bedl)
+                write_bed(bedp, bedl, decor)
             bd = digest(bedl)
             exp_al = expected_rows(contigs, bedl, aligned)
             exp_sp = expected_rows(contigs, bedl, spanned)
@@ -592,12 +637,21 @@ def run_world(ck, scratch, wi, stream, nreads, max_bins, nbeds, cuts, configs, b
             nonzero = any(b for _, b in exp_al)
             ncols = 3 + len(bedl[0][3])
             mbins = [[c, lo, hi, list(cols)] for c, lo, hi, cols in bedl]
-            for alg in ('pileup', 'count'):
+            if not big or cut == cuts[0]:
+                # the text layer through samtools: what pysam.bedcov returns for this file is the model's
+                # bedcov_text of the bins and the model's pileup base counts, character by character
+                try:
+                    raw = pysam.bedcov(*([bedp, bam] + (['-Q', str(cut)] if cut > 0 else [])), split_lines=False)
+                except pysam.SamtoolsError as e:     # noqa
+                    raw = Err('SamtoolsError')
+                text_requests.append([cut, mreads, mbins])
+                text_pending.append((raw, make_case(contigs, [], bedl, 'pileup', cut, 1, None)))
+            for alg in algs:
                 serial = run_code(bedp, bam, alg, cut, 1, None)
                 # which expectation is the property's: aligned bases. With D/N the pileup
                 # algorithm is compared with the model only.
                 prop_exp = exp_al
-                oracle_applies = not (indel and alg == 'pileup')
+                oracle_applies = not (indel is True and alg == 'pileup')
                 for (procs, chunk) in [(1, None)] + configs(rng, alg):
                     rows = serial if (procs, chunk) == (1, None) else run_code(bedp, bam, alg, cut, procs, chunk)
                     case_id = ['cov', stream, wd, bd, alg, cut, procs, chunk]
@@ -634,6 +688,14 @@ def run_world(ck, scratch, wi, stream, nreads, max_bins, nbeds, cuts, configs, b
                 ck.tie_break('model coverage differs from do_coverage (%s): %s' % (alg, why), case,
                              code=rows if isinstance(rows, Err) else rows[:60],
                              model=m if isinstance(m, Err) else [list(x) for x in m][:60])
+    if text_requests:
+        tout = vlib.model_batch('c09_bedcov_text', text_requests)
+        for (raw, case), m in zip(text_pending, tout):
+            ck.count(['bedcov-text', wd, digest(case['bed']), case['cut']], nontrivial=len(reads) > 0, cls='samtools-text')
+            if raw != m:
+                case['reads'] = reads[:400]
+                ck.tie_break('text returned by samtools bedcov differs from the model\'s bedcov_text', case,
+                             code=raw if isinstance(raw, Err) else raw[:2000], model=m if isinstance(m, Err) else m[:2000])
     for f in os.listdir(scratch):
         # the world's own files, and the empty chunk file to_chunks leaves behind whenever
         # chunk_size divides the number of lines
@@ -749,6 +811,19 @@ def check_spec(ck):
             ck.tie_break('model base counts differ from the per-base brute force (a generated constant of '
                          'cnvlib/coverage.py changed the model?)', {'request': ra},
                          model=[c, p], expected=[ea, es])
+    # the model's pileup table computed THROUGH the text layer (render samtools' text per chunk, detect the columns,
+    # parse, assemble, concatenate) is the model's pileup table (C09_pileup_text_chunks), on the extracted code
+    ks = [rng.choice([0, 1, 2, 3, 7]) for _ in reqs_s]
+    direct = vlib.model_batch('c09_coverage', [[1, r[1], 0, r[2], r[3], []] for r in reqs_s])
+    via = vlib.model_batch('c09_via_text', [[r[1], k, r[2], r[3], []] for r, k in zip(reqs_s, ks)])
+    for r, k, d, v in zip(reqs_s, ks, direct, via):
+        ck.count(['via-text', digest(r), k], nontrivial=True, cls='model-via-text')
+        if d != v:
+            # both sides follow the generated constants of /repo (quoting mode, column names ...): a difference means
+            # the source changed under the model -- C09_pileup_text no longer describes it; the streams look for an input
+            ck.tie_break('model: the pileup table through the text layer differs from the pileup table (chunk size %d); a '
+                         'generated constant of bedcov() / detect_bedcov_columns changed the model?' % k, {'request': r},
+                         model=v, expected=d)
 
 
 def check_cli(ck, scratch):
@@ -768,6 +843,312 @@ def check_cli(ck, scratch):
             what, clause, _ = res['violation']
             ck.violation('command line: ' + what, case, code=res['rows'], clause=clause,
                          expected=[[list(k), b] for k, b in res['expected']])
+
+
+# ----------------------------------------------------------------------------
+# the text layer of the pileup path, called directly (no samtools): detect_bedcov_columns, bedcov()'s
+# read_csv and interval_coverages_pileup's table assembly on generated text
+
+
+class FakeBedcov:
+    """stands in for pysam.bedcov inside this process only: returns the prepared text and
+    records the command it was given"""
+
+    def __init__(self, text):
+        self.text, self.calls = text, []
+
+    def __call__(self, *args, **kw):
+        self.calls.append(list(args))
+        return self.text
+
+
+def with_fake_bedcov(text, fn):
+    from cnvlib import coverage
+    orig = coverage.pysam.bedcov
+    fake = FakeBedcov(text)
+    coverage.pysam.bedcov = fake
+    try:
+        try:
+            return fn(coverage), fake.calls
+        except Exception as e:   # noqa
+            return Err(type(e).__name__), fake.calls
+    finally:
+        coverage.pysam.bedcov = orig
+
+
+def gen_text_bins(rng, ncols, n):
+    """n BED lines of ncols columns, coordinates incl. zero-width, reversed and very large ones"""
+    chroms = rng.sample(['chr1', 'chr2', 'chrX', '1', 'ctgA', 'chrUn_gl000220', 'chr10', 'NA', '007', 'nan', 'chr1_random'], 3)
+    names = gen_names(rng, n, ncols)
+    out = []
+    for i in range(n):
+        lo = rng.choice([0, 1, 10, 999, rng.randint(0, 10 ** 6), rng.randint(0, 3 * 10 ** 9)])
+        w = rng.choice([0, 0, 1, 2, 3, 7, 100, 120, rng.randint(1, 10 ** 4), -rng.randint(1, 50)])
+        hi = max(0, lo + w)
+        cols = []
+        if ncols >= 4:
+            cols.append(names[i])
+        for j in range(5, ncols + 1):
+            cols.append(rng.choice(['0', '1000', '+', '-', '.', 'x%d' % j, '', 'NA', '1e5', 'chr1']))
+        out.append([rng.choice(chroms), lo, hi, cols])
+    return out
+
+
+def bedcov_text_of(bins, counts):
+    return ''.join('\t'.join([c, str(lo), str(hi)] + list(cols) + [str(n)]) + '\n' for (c, lo, hi, cols), n in zip(bins, counts))
+
+
+def table_rows(df):
+    """bedcov()'s DataFrame -> [chrom, start, end, gene or None, basecount]"""
+    if isinstance(df, Err):
+        return df
+    try:
+        out = []
+        has_gene = 'gene' in df
+        for i in range(len(df)):
+            g = df['gene'].iloc[i] if has_gene else None
+            out.append([df['chromosome'].iloc[i], int(df['start'].iloc[i]), int(df['end'].iloc[i]), g, int(df['basecount'].iloc[i])])
+        return out
+    except (ValueError, TypeError):
+        return Err('untyped')         # a column that is not integer-valued (ragged or non-numeric records)
+
+
+def final_rows(df):
+    if isinstance(df, Err):
+        return df
+    return [(c, int(a), int(b), g, float(d), float(l)) for c, a, b, g, d, l in
+            zip(df['chromosome'].tolist(), df['start'].tolist(), df['end'].tolist(), df['gene'].tolist(),
+                df['depth'].tolist(), df['log2'].tolist())]
+
+
+def check_text(ck):
+    from cnvlib import coverage
+    rng = ck.rng
+    n = 120 if ck.tier == 'quick' else 1500
+    texts, metas = [], []
+    for i in range(n):
+        ncols = rng.choice([3, 4, 4, 5, 6, 6, 8, 12])
+        bins = gen_text_bins(rng, ncols, rng.choice([1, 1, 2, 3, 5, 12]))
+        counts = []
+        for (c, lo, hi, cols) in bins:
+            span = max(1, hi - lo)
+            counts.append(rng.choice([0, 0, 1, span, 2 * span, span * 3 // 2, rng.randint(0, 50 * span), rng.randint(0, 10 ** 12)]))
+        texts.append(bedcov_text_of(bins, counts))
+        metas.append((ncols, bins, counts))
+    depths = set()
+    for ncols, bins, counts in metas:
+        for (c, lo, hi, cols), b in zip(bins, counts):
+            if hi > lo:
+                depths.add(Fraction(b, hi - lo))
+    tbl = log2_table(depths)
+    m_cols = vlib.model_batch('c09_detect_cols', texts)
+    m_parsed = vlib.model_batch('c09_parse_bedcov', texts)
+    m_final = vlib.model_batch('c09_pileup_text', [[t, tbl] for t in texts])
+    for text, (ncols, bins, counts), mc, mp, mf in zip(texts, metas, m_cols, m_parsed, m_final):
+        case = {'text': text, 'ncols': ncols}
+        ck.count(['text', digest(text)], nontrivial=any(counts), cls='text:cols%d' % min(ncols, 7))
+        # 1. the column names
+        try:
+            cols = coverage.detect_bedcov_columns(text)
+        except Exception as e:   # noqa
+            cols = Err(type(e).__name__)
+        ok = (not isinstance(cols, Err) and len(cols) == ncols + 1 and cols[:3] == ['chromosome', 'start', 'end']
+              and cols[-1] == 'basecount' and len(set(cols)) == len(cols)
+              and (('gene' in cols and cols.index('gene') == 3) if ncols >= 4 else 'gene' not in cols))
+        if not ok:
+            ck.violation('detect_bedcov_columns does not name the columns of a %d-column BED (chromosome, start, end, [gene,] ..., '
+                         'basecount)' % ncols, case, code=cols, clause='C09_bedcov_parse')
+            continue
+        if cols != mc:
+            ck.tie_break('model detect_bedcov_columns differs from the code', case, code=cols, model=mc)
+        # 2. the table bedcov() reads from the text
+        q = rng.choice([0, 0, 1, 10, 60])
+        df, calls = with_fake_bedcov(text, lambda cv: cv.bedcov('regions.bed', 'sample.bam', q))
+        got = table_rows(df)
+        exp = [[c, lo, hi, (cl[0] if cl else None), b] for (c, lo, hi, cl), b in zip(bins, counts)]
+        if got != exp:
+            ck.violation('the table read from bedcov text does not carry each line\'s chromosome, start, end, name and base count',
+                         case, code=got, expected=exp, clause='C09_bedcov_parse')
+            continue
+        if mp != exp:
+            ck.tie_break('model parse_bedcov differs from bedcov()', case, code=got, model=mp)
+        # the command given to samtools: -Q <min_mapq> exactly when min_mapq > 0
+        want = ['regions.bed', 'sample.bam'] + (['-Q', str(q)] if q > 0 else [])
+        if calls != [want]:
+            ck.violation('bedcov() runs samtools with %r for min_mapq=%d, expected %r' % (calls, q, want), case, code=calls,
+                         expected=want, clause='C09_min_mapq')
+        # 3. the assembled pileup table
+        df, _ = with_fake_bedcov(text, lambda cv: cv.interval_coverages_pileup('regions.bed', 'sample.bam', q, 1))
+        rows = final_rows(df)
+        keyed = [((c, lo, hi, (cl[0] if cl else '-')), b) for (c, lo, hi, cl), b in zip(bins, counts)]
+        v = oracle_check(rows, keyed, 'pileup')
+        if v is not None:
+            ck.violation('table assembly from bedcov text: ' + v[0], case, code=rows, clause=v[1],
+                         expected=[[list(k), b] for k, b in keyed])
+            continue
+        why = model_rows_check(rows, mf, 'pileup')
+        if why is not None:
+            ck.tie_break('model pileup_table_of_text differs from interval_coverages_pileup: %s' % why, case, code=rows,
+                         model=mf if isinstance(mf, Err) else [list(x) for x in mf])
+    # the -Q threshold of the model
+    qs = [-7, -1, 0, 1, 2, 10, 30, 60, 255]
+    for q, m in zip(qs, vlib.model_batch('c09_pileup_cut', qs)):
+        _, calls = with_fake_bedcov('c\t0\t1\t0\n', lambda cv: cv.bedcov('r.bed', 's.bam', q))
+        eff = int(calls[0][calls[0].index('-Q') + 1]) if calls and '-Q' in calls[0] else 0
+        ck.count(['mapq-option', q], nontrivial=q > 0, cls='mapq-option')
+        if eff != max(0, q):
+            ck.violation('bedcov() with min_mapq=%d makes samtools use the threshold %d' % (q, eff), {'min_mapq': q}, code=calls,
+                         clause='C09_min_mapq')
+        elif m != eff:
+            ck.tie_break('model pileup_cut differs from the -Q option bedcov() passes', {'min_mapq': q}, code=eff, model=m)
+    # malformed / edge text: error classes, and the simple quoted fields the model covers
+    edge = ['', 'abc', 'a\tb\n', 'a\tb\tc\n', 'c\t1\t2\t3', 'c\t1\t2\t"x"\t5\n', 'c\t1\t2\t""\t5\nc\t2\t3\ty\t0\n',
+            'c\t1\t2\t"a b"\tq\t+\t7\n', 'c\t1\t2\t3\n\nc\t2\t3\t4\n', 'c\t1\t2\ta"b"\t5\n']
+    m_edge = vlib.model_batch('c09_parse_bedcov', edge)
+    m_ecols = vlib.model_batch('c09_detect_cols', edge)
+    for text, mp, mc in zip(edge, m_edge, m_ecols):
+        ck.count(['text-edge', text], nontrivial=False, cls='text:edge')
+        try:
+            cols = coverage.detect_bedcov_columns(text)
+        except Exception as e:   # noqa
+            cols = Err(type(e).__name__)
+        if cols != mc:
+            ck.tie_break('model detect_bedcov_columns differs from the code on edge text', {'text': text}, code=cols, model=mc)
+        df, _ = with_fake_bedcov(text, lambda cv: cv.bedcov('regions.bed', 'sample.bam', 0))
+        got = table_rows(df)
+        if isinstance(got, Err) != isinstance(mp, Err) or (not isinstance(got, Err) and got != mp):
+            ck.tie_break('model parse_bedcov differs from bedcov() on edge text', {'text': text}, code=got, model=mp)
+
+
+# ----------------------------------------------------------------------------
+# parallel.to_chunks on files with comment / track / blank lines
+
+
+def check_to_chunks(ck, scratch):
+    from cnvlib import parallel
+    rng = ck.rng
+    cases, code = [], []
+    for i in range(60 if ck.tier == 'quick' else 600):
+        n = rng.choice([0, 1, 2, 3, 5, 8, 13, 24])
+        lines = []
+        if rng.random() < 0.3:
+            lines.append('track name=t%d\n' % i)
+        for j in range(n):
+            r = rng.random()
+            if r < 0.2:
+                lines.append(rng.choice(['#\n', '# comment\n', '#chr1\t1\t2\n', '##x\n']))
+            elif r < 0.27:
+                lines.append('\n')
+            elif r < 0.3:
+                lines.append(' #not a comment\t1\t2\n')
+            else:
+                lines.append('chr%d\t%d\t%d\tg%d\n' % (rng.randint(1, 3), j, j + rng.randint(0, 9), j))
+        if lines and lines[-1] != '\n' and rng.random() < 0.2:
+            lines[-1] = lines[-1][:-1]                     # no newline at the end of the file
+        k = rng.choice([1, 2, 3, 5, 7, 5000])
+        p = os.path.join(scratch, 'lines%d.bed' % i)
+        with open(p, 'w') as fh:
+            fh.write(''.join(lines))
+        got = []
+        for name in parallel.to_chunks(p, chunk_size=k):
+            got.append(open(name).read().splitlines(True))
+            parallel.rm(name)
+        os.remove(p)
+        cases.append([k, lines])
+        code.append(got)
+    out = vlib.model_batch('c09_to_chunks_lines', cases)
+    for (k, lines), got, m in zip(cases, code, out):
+        kept = [l for l in lines if not l.startswith('#')]
+        ck.count(['to_chunks', k, digest(lines)], nontrivial=len(kept) > k and len(kept) != len(lines), cls='to_chunks-lines')
+        flat = [l for piece in got for l in piece]
+        ok = flat == kept and all(1 <= len(piece) <= k for piece in got) and all(len(piece) == k for piece in got[:-1])
+        if not ok:
+            ck.violation('to_chunks pieces do not concatenate to the non-comment lines of the file in pieces of chunk_size lines',
+                         {'k': k, 'lines': lines}, code=got, expected=[kept[j:j + k] for j in range(0, len(kept), k)],
+                         clause='C09_to_chunks')
+        elif m != got:
+            ck.tie_break('model to_chunks_lines differs from parallel.to_chunks', {'k': k, 'lines': lines}, code=got, model=m)
+
+
+# ----------------------------------------------------------------------------
+# row order of the --count table (no BAM needed): tabio.read_auto + by_chromosome + coords
+
+
+def py_chrom_key(label):
+    """independent re-statement of the chromosome sort key: numeric part first, then X/Y, then short and long names"""
+    chrom = label[3:] if label.lower().startswith('chr') else label
+    if chrom in ('X', 'Y'):
+        return (1000, chrom)
+    i = 0
+    while i < len(chrom) and chrom[i].isdigit():
+        i += 1
+    num = int(chrom[:i]) if i else 0
+    rest = chrom[i:]
+    if not rest:
+        return (num, '')
+    return ((2000 if len(rest) == 1 else 3000) + num, rest)
+
+
+def check_order(ck, scratch):
+    from skgenome import tabio
+    rng = ck.rng
+    pool = ['chr1', 'chr2', 'chr10', 'chrX', 'chrY', '1', '2', 'X', 'chrM', 'MT', 'chr1_random', 'chrUn_gl000220', 'ctgA',
+            'chr02', 'CHR3', 'Chr1', '10', 'chr22', 'scaffold_12', '2a', 'chr2b']
+    cases, code, raws = [], [], []
+    for i in range(50 if ck.tier == 'quick' else 500):
+        chroms = rng.sample(pool, rng.randint(1, 6))
+        ncols = rng.choice([3, 4, 6])
+        n = rng.randint(1, 40)
+        bins = []
+        for j in range(n):
+            lo = rng.choice([0, 5, 10, 10, 100, rng.randint(0, 300)])
+            hi = lo + rng.choice([0, 1, 10, 10, 50, rng.randint(0, 100)])
+            cols = ['b%d' % j] if ncols >= 4 else []
+            if ncols >= 6:
+                cols += ['0', rng.choice('+-.')]
+            bins.append([rng.choice(chroms), lo, hi, cols])
+        if rng.random() < 0.3:
+            bins.sort(key=lambda b: (b[0], b[1], b[2]))
+        p = os.path.join(scratch, 'order%d.bed' % i)
+        write_bed(p, bins)
+        try:
+            regions = tabio.read_auto(p)
+            got = []
+            for _chrom, sub in regions.by_chromosome():
+                for c, s, e, g in sub.coords(['gene']):
+                    got.append([c, int(s), int(e), g])
+        except Exception as e:   # noqa
+            got = Err(type(e).__name__)
+        os.remove(p)
+        cases.append([[c, lo, hi, list(cols)] for c, lo, hi, cols in bins])
+        code.append(got)
+        raws.append(bins)
+    out = vlib.model_batch('c09_count_order', cases)
+    for bins, got, m in zip(raws, code, out):
+        ck.count(['count-order', digest(bins)], nontrivial=len({b[0] for b in bins}) > 1, cls='count-order')
+        case = {'bed': bins}
+        if isinstance(got, Err):
+            ck.tie_break('tabio.read_auto / by_chromosome raised on a plain BED', case, code=got, model=m)
+            continue
+        keys = [[c, lo, hi, (cols[0] if cols else '-')] for c, lo, hi, cols in bins]
+        # the statement of C09_count_order on the code's rows: same multiset; one block per chromosome name;
+        # blocks by non-decreasing chromosome key; inside a block (start, end) non-decreasing, ties in file order
+        ok = sorted(got) == sorted(keys)
+        blocks = []
+        for r in got:
+            if not blocks or blocks[-1][0] != r[0]:
+                blocks.append([r[0], []])
+            blocks[-1][1].append(r)
+        ok = ok and len({b[0] for b in blocks}) == len(blocks)
+        ok = ok and all(py_chrom_key(a[0]) <= py_chrom_key(b[0]) for a, b in zip(blocks, blocks[1:]))
+        for cname, rws in blocks:
+            want = sorted([k for k in keys if k[0] == cname], key=lambda k: (k[1], k[2]))     # stable
+            ok = ok and rws == want
+        if not ok:
+            ck.tie_break('the regions of the --count path are not in the order C09_count_order states (sorted by chromosome key, '
+                         'start, end; grouped by chromosome)', case, code=got, model=m)
+        elif m != got:
+            ck.tie_break('model count_order differs from tabio.read_auto + by_chromosome', case, code=got, model=m)
 
 
 # ----------------------------------------------------------------------------
@@ -805,22 +1186,38 @@ def thorough_configs(rng, alg):
 
 def run(ck, scratch):
     ck.rule = ('one case = one do_coverage call on a synthetic coordinate-sorted BAM (1-3 contigs, reads of query length 30..150 with '
-               'soft/hard clips, M/=/X, all 16 combinations of the flags 0x4/0x100/0x200/0x400 plus reverse/paired/supplementary, MAPQ '
-               'around the cut-offs, starts/ends placed on, one off and across bin edges and contig ends, mates overlapping) x a BED '
-               '(3/4/6/8 columns; abutting tilings, overlapping, nested, duplicate, zero-width, whole-contig, over- and beyond-the-end '
-               'bins; sorted or shuffled; ordinary, NA-token, numeric-looking and empty names) x algorithm x min_mapq in {0,1,10,30,60} '
-               'x (processes, chunk size). Streams: noindel (oracle + model), indel (I/D/N: --count oracle + model, pileup model only), '
-               'big (BED with more lines than the real chunk size; thorough). Each table is checked against the per-base brute force, '
-               'against the serial table and against the Coq model. non-trivial = some bin has non-zero depth and (a filtered read '
-               'overlaps a bin or processes > 1); distinct by (BAM digest, BED digest, configuration).')
+               'soft/hard clips, M/=/X, all 16 combinations of the flags 0x4/0x100/0x200/0x400 plus reverse / supplementary 0x800 '
+               '(12 %; must be counted) / paired, proper-pair, mate-unmapped, mate-reverse, first/second-in-pair decorations, MAPQ '
+               'around the cut-offs, starts/ends placed on, one off and across bin edges and contig ends, reads hanging over the '
+               'contig end, mates overlapping) x a BED (3/4/6/8 columns; abutting tilings, overlapping, nested, duplicate, zero-width, '
+               'whole-contig, over- and beyond-the-end bins; sorted or shuffled; ordinary, NA-token, numeric-looking, empty and '
+               'quote-bearing names) x algorithm x min_mapq in {0,1,10,30,60} x (processes, chunk size). Streams: noindel (oracle + '
+               'model), ins (insertions only: oracle for both algorithms + model), indel (I/D/N: --count oracle + model, pileup model '
+               'only), decor (track line, # comments and blank lines in the regions file; pileup only), big (BED with more lines than '
+               'the real chunk size). Each table is checked against the per-base brute force, against the serial table and, '
+               'positionally, against the Coq model; the text samtools returns is compared with the model\'s bedcov_text. Direct layer '
+               'cases: bedcov text of 3/4/5/6/8/12-column BEDs with coordinates up to 3e9 and counts up to 1e12 through '
+               'detect_bedcov_columns / bedcov() / interval_coverages_pileup (stand-in for pysam.bedcov), edge text (no newline, '
+               '< 3 tabs, blank records, quoted fields), the -Q option for min_mapq in -7..255, to_chunks on files with comments / '
+               'track / blank lines, the --count region order on 1-6 chromosome names of every naming style. non-trivial = some bin '
+               'has non-zero depth and (a filtered read overlaps a bin or processes > 1); distinct by (BAM digest, BED digest, '
+               'configuration).')
     ck.unproved_remainder = [
-        'runtime scheduling is outside the model (PARTIAL): ProcessPoolExecutor.map order, temporary chunk files, fork start-up '
-        'are exercised with processes in {1,2,3,16} and chunk sizes {1,2,7,5000} only; C09_chunks proves "any split into consecutive '
-        'chunks, results concatenated in order" for the model',
-        'samtools bedcov (pileup engine, default flag filter, -Q) and pysam.fetch/read.positions are oracles of the model: sampled, '
-        'not proved; measured here: bedcov counts deleted (D) and skipped (N) reference positions inside a read as covered',
+        'runtime scheduling is outside the model (PARTIAL): ProcessPoolExecutor.map order, temporary files, fork start-up are '
+        'exercised with processes in {1,2,3,16} and chunk sizes {1,2,7,5000} only; C09_chunks / C09_pileup_order / C09_to_chunks '
+        'prove "pieces of <= chunk_size lines that concatenate to the file, tables concatenated in order" for the model',
+        'samtools bedcov (pileup engine, default flag filter, -Q, its BED line reader) and pysam.fetch/read.positions are oracles of '
+        'the model: sampled, not proved; measured here: bedcov counts deleted (D) and skipped (N) reference positions inside a '
+        'read as covered; its output text is compared character by character with the model\'s bedcov_text on every world',
+        'pandas.read_csv\'s tokenizer is modelled at field level only (records end at LF/CR, fields split at tab, decimal integers, '
+        'names verbatim under quoting=3 / dtype str / keep_default_na=False): C09_bedcov_parse is about that model',
         'log2 is an oracle (math.log / numpy.log2): compared by tolerance 1e-9 with log2 of the exact rational depth',
-        'row order of the --count table (tabio sort + by_chromosome grouping) is not modelled: compared as a multiset of rows',
+        'stated preconditions (inputs outside a well-formed k-column BED, not compared): every line has the same number of columns '
+        '(a ragged BED makes the pileup path raise TypeError, --count accepts it); names without trailing white space (--count '
+        'rstrip()s the name, the pileup keeps it); no #-comment or blank lines for --count (its reader raises "Bad line"; samtools '
+        'and to_chunks skip them); no chunk made only of lines samtools skips (track / blank line alone: bedcov() raises ValueError '
+        'on the empty output); fields without tab / LF / CR; distinct chromosome names with equal sort keys ("chr1" next to "1") '
+        'leave the --count table grouped by name rather than globally sorted (C09_count_order states exactly what holds)',
     ]
     if not ck.build_status.get('driver_ok'):
         raise RuntimeError('model driver unavailable')
@@ -836,18 +1233,29 @@ def run(ck, scratch):
     check_blocks(ck)
     check_chunks(ck, scratch)
     check_spec(ck)
+    check_text(ck)
+    check_to_chunks(ck, scratch)
+    check_order(ck, scratch)
     check_cli(ck, scratch)
     quick = ck.tier == 'quick'
     wi = 0
     plan = []
     if quick:
-        plan += [('noindel', 18), ('indel', 7), ('empty', 1), ('dense', 2), ('big', 1)]
+        plan += [('noindel', 16), ('indel', 6), ('ins', 2), ('decor', 1), ('empty', 1), ('dense', 2), ('big', 1)]
     else:
-        plan += [('noindel', 110), ('indel', 40), ('empty', 3), ('dense', 8), ('big', 3)]
+        plan += [('noindel', 90), ('indel', 32), ('ins', 12), ('decor', 6), ('empty', 3), ('dense', 8), ('big', 3)]
     for stream, count in plan:
         for _ in range(count):
             rng = ck.rng
-            if stream == 'empty':
+            if stream == 'decor':
+                # track line, '#' comments and blank lines in the regions file: samtools and to_chunks skip them
+                # (the --count reader does not accept them, so the pileup algorithm only)
+                # chunk sizes >= 2: a chunk made ONLY of lines samtools skips (the track line alone, a blank line
+                # alone) has empty bedcov output and bedcov() raises ValueError -- outside the property's BED files
+                cfg = lambda r, alg: [(2, 2), (3, 2), (2, 7), (2, None)]
+                run_world(ck, scratch, wi, 'decor', rng.choice([40, 200]), 30, 2, rng.sample(CUTS, 2), cfg,
+                          algs=('pileup',), decor=True)
+            elif stream == 'empty':
                 run_world(ck, scratch, wi, 'noindel', 0, 12, 1, [0, 30], quick_configs if quick else thorough_configs)
             elif stream == 'dense':
                 # many reads stacked on few positions: high depth, every filter combination
